@@ -15,7 +15,7 @@ Lemma cache_connect_spec : forall s, WF s -> k_has s = false -> k_reg s = true -
                match r with Ok => k_has s' = true /\ (k_imm s' = true -> k_intxn s' = true) | _ => k_has s' = false end
   end.
 Proof.
-  destruct_st. intros [[? ? ? ? ? ? ? ? ? ? ? ?] ? ?] ? ?.
+  destruct_st. intros [[? ? ? ? ? ? ? ? ? ? ? ? ?] ? ?] ? ?.
   unfold KF. unfold_all. run.
   all: try reflexivity.
   all: split; [wf_tac | split; [ext_tac | norm; auto]].
@@ -30,7 +30,7 @@ Lemma stm_spec : forall s, WF s -> k_has s = true -> k_imm s = true -> k_intxn s
                match r with Ok => k_intxn s' = true | _ => True end
   end.
 Proof.
-  destruct_st. intros [[? ? ? ? ? ? ? ? ? ? ? ?] ? ?] ? ? ? ?.
+  destruct_st. intros [[? ? ? ? ? ? ? ? ? ? ? ? ?] ? ?] ? ? ? ?.
   unfold KF. unfold_all. run.
   all: try reflexivity.
   all: split; [wf_tac | split; [ext_tac | norm; auto]].
